@@ -31,9 +31,13 @@ class ExcB(Exception):
     pass
 
 
-EXC = {1: ExcA, 2: ExcB}
+class ExcA1(ExcA):      # a proper subclass of the listed class: selected by with_exceptions(ExcA) / only_exceptions(ExcA) too
+    pass
+
+
+EXC = {1: ExcA, 2: ExcB, 3: ExcA1}
 CONDS = ["all", "not_none", "truthy", "nonbool", "with_exc", "only_exc"]
-SCRIPT = ["fresh", "fresh", "fresh", None, 0, "", [], "raiseA", "raiseB", "v"]
+SCRIPT = ["fresh", "fresh", "fresh", None, 0, "", [], "raiseA", "raiseB", "raiseA1", "v"]
 ARGS = [(1, 0), (1, 5), (2, 0), ("a", 0)]
 
 
@@ -49,7 +53,7 @@ def cond_py(name):
 
 def cond_coq(name):
     return {"all": C("CAll"), "not_none": C("CNotNone"), "truthy": C("CTruthy"), "nonbool": C("CNonBool"),
-            "with_exc": C("CWithExc", [Z(1)]), "only_exc": C("COnlyExc", [Z(1)])}[name]
+            "with_exc": C("CWithExc", [Z(1), Z(3)]), "only_exc": C("COnlyExc", [Z(1), Z(3)])}[name]     # class ids that are instances of ExcA
 
 
 def _td(ticks):
@@ -103,7 +107,7 @@ def gen_cases(rng, tier):
         runs = []
         for _ in range(13):
             items = [rng.choice([1, 0, 2, "", "a", None, [], 7]) for _ in range(rng.randint(0, 4))]
-            runs.append({"items": items, "end": rng.choice([None, None, None, 1, 2]),
+            runs.append({"items": items, "end": rng.choice([None, None, None, 1, 2, 3]),
                          "inrun": [rng.choice([0, 0, 0, 4, T]) if tier != "quick" or rng.random() < 0.15 else 0 for _ in items]})
         cases.append({"kind": "iter", "secs": secs, "spelling": rng.choice(["int", "timedelta", "str", "callable"]), "cond": rng.choice(CONDS), "calls": calls, "runs": runs})
     for _ in range(n // 2):
@@ -155,6 +159,7 @@ def run_impl(case):
                 s = case["script"][i]
                 if s == "raiseA": raise ExcA()
                 if s == "raiseB": raise ExcB()
+                if s == "raiseA1": raise ExcA1()
                 return _pyval(s, i)
             for adv, ai, form in case["calls"]:
                 if adv: await asyncio.sleep(adv * TICK)
@@ -166,6 +171,7 @@ def run_impl(case):
                     elif form == "mixed": r = await f(x, y=y)
                     else: r = await (f(x) if y == 0 else f(x, y))
                     res = ["val", r]
+                except ExcA1: res = ["exc", 3]
                 except ExcA: res = ["exc", 1]
                 except ExcB: res = ["exc", 2]
                 except Exception as e:  # noqa
@@ -191,6 +197,7 @@ def run_impl(case):
                 try:
                     async for it in g(ai):
                         items.append(it)
+                except ExcA1: end = 3
                 except ExcA: end = 1
                 except ExcB: end = 2
                 except Exception as e:  # noqa
@@ -204,6 +211,7 @@ def run_impl(case):
 def _outcome(s, i):
     if s == "raiseA": return C("OExc", Z(1))
     if s == "raiseB": return C("OExc", Z(2))
+    if s == "raiseA1": return C("OExc", Z(3))
     return C("OVal", _val(_pyval(s, i)))
 
 
